@@ -197,5 +197,18 @@ Proof. induction h as [|[o c] h IH]; [reflexivity|]. intros Hs.
   rewrite (cnt_notin h o Hn). rewrite IH by exact Hs. f_equal; [lia|].
   apply lsum_ext. intros y Hy. destruct (eqb_spec O o y) as [E|N]; [subst y; contradiction|ring]. Qed.
 
+(* boolean well-formedness, for examples *)
+Fixpoint sascb (l : list T) : bool :=
+  match l with [] => true | x :: t => forallb (ltb x) t && sascb t end.
+Lemma sascb_sound l : sascb l = true -> sasc l.
+Proof. induction l as [|x t IH]; cbn [sascb sasc]; [trivial|]. intros H. apply andb_prop in H. destruct H as [H1 H2].
+  split; [|apply IH; exact H2]. intros y Hy. rewrite forallb_forall in H1. apply H1. exact Hy. Qed.
+Definition nonnegb (h : hist) : bool := forallb (fun oc => 0 <=? snd oc) h.
+Lemma nonnegb_sound h : nonnegb h = true -> nonneg h.
+Proof. unfold nonnegb, nonneg. rewrite forallb_forall. intros H oc Hin. apply Z.leb_le. apply H. exact Hin. Qed.
+Definition wfb (h : hist) : bool := sascb (keys h) && nonnegb h.
+Lemma wfb_sound h : wfb h = true -> wf h.
+Proof. unfold wfb, wf. intros H. apply andb_prop in H. destruct H as [H1 H2]. split; [apply sascb_sound|apply nonnegb_sound]; assumption. Qed.
+
 End H.
 Arguments hist : clear implicits.
